@@ -175,9 +175,19 @@ func (s *v4Server) ResetLeases(leases []*dhcpsvc.Lease) (err error) {
 	return nil
 }
 
-// getLeasesRef returns the actual leases slice.  For internal use only.
-func (s *v4Server) getLeasesRef() []*dhcpsvc.Lease {
-	return s.leases
+// getLeasesRef returns the copies of all the leases.  For internal use only.
+// It is safe for concurrent use, since it is used to store the leases after the
+// handlers have released the lock.
+func (s *v4Server) getLeasesRef() (leases []*dhcpsvc.Lease) {
+	s.leasesLock.Lock()
+	defer s.leasesLock.Unlock()
+
+	leases = make([]*dhcpsvc.Lease, 0, len(s.leases))
+	for _, l := range s.leases {
+		leases = append(leases, l.Clone())
+	}
+
+	return leases
 }
 
 // isBlocklisted returns true if this lease holds a blocklisted IP.
